@@ -78,3 +78,42 @@ def run(v, tier, seed, name="python_bridge", n_quick=120, n_thorough=2500):
                 "(exact resp. modulo the state text); JSON payloads; re-runs on the same checker exercise save/restore and deepcopy",
         "samples": [{"scenario": nm, "lines": l} for nm, l in scen[:2]]})
     return len(bad_model) + len(bad_twin)
+
+
+def copy_isolation(v, tier, seed, name="python_copy_isolation"):
+    """C18 "copies made for model checking share nothing with the original", implementation against itself: Python processes with a
+    custom partial state and a mutable attribute outside it (vscript.ScriptProcShared reports len(self.seen) with every local
+    message).  A simulation with a `mc run` in the middle (the checker runs the handlers on its copies) must give exactly the
+    observations of the same simulation without it."""
+    from . import snap_suite, sim_suite
+    from .common import run_blocks, VH, JOBS, chunks, STALL_S
+    from concurrent.futures import ThreadPoolExecutor
+    rng = random.Random(seed * 4099 + 17)
+    n = 40 if tier == "quick" else 600
+    scen = []
+    for i in range(n):
+        two = rng.random() < 0.6
+        lines = ["seed 1", f"draws {sim_suite.draws_for(1)}", "node n0"] + (["node n1"] if two else [])
+        p1node = "n1" if two else "n0"
+        k = rng.randint(1, 3)
+        lines += [f"rule p0 0 L:m0 0 S:m1:={k}:p1 T:t0:{rng.randint(1, 3)}", "rule p0 0 T:t0 0 L:m2:=2 S:m1:=5:p1",
+                  "rule p1 0 M:m1 0 S:m3:=3:p0 L:m5:=7", "rule p0 0 M:m3 0 L:m4:=4", "rule p1 0 L:m0 0 S:m3:=6:p0"]
+        lines += ["proc p0 n0 pys", f"proc p1 {p1node} pys", "net delay 2"]
+        for _ in range(rng.randint(1, 2)):
+            lines.append(f"local {rng.choice(['p0', 'p1'])} m0 =1")
+        if rng.random() < 0.5:
+            lines.append(rng.choice(["step", "steps 2"]))
+        lines.append(f"mc run {rng.choice(['dfs', 'bfs'])} {rng.choice(['full', 'disabled'])} inv=none goal=noev prune=none collect=none")
+        lines += [f"local {rng.choice(['p0', 'p1'])} m0 =1", "steps 12", "read p0", "read p1", "obs"]
+        scen.append((f"ci{i}", lines))
+    parts = chunks([sim_suite.block(nm, l) for nm, l in scen], JOBS)
+    impl = {}
+    with ThreadPoolExecutor(max_workers=JOBS) as ex:
+        for o, rc, err in ex.map(lambda part: run_blocks([VH, "sim"], part, STALL_S), parts):
+            impl.update(o)
+    handled = sum(1 for nm, _ in scen if sum(1 for l in impl.get(nm, []) if l.startswith("E ")) > 1)
+    nviol = snap_suite.judge_mc_transparent(v, scen, impl, name)
+    v.coverage.setdefault(name, {}).update({"programs": len(scen), "explorations_with_handler_calls": handled,
+        "rule": "Python processes (custom partial state + mutable attribute outside it) in a simulation with and without a model-checking "
+                "run in the middle; all simulator observations must be identical"})
+    return nviol
